@@ -1285,7 +1285,12 @@ def _prep_index(t, idx):
             else:
                 out.append(i.a.astype(np.int64) if i.a.ndim else _pyint(i.a[()]))
         elif isinstance(i, (list,)):
-            out.append(np.array(i))
+            i = [x.a[()] if isinstance(x, Tensor) and x.a.ndim == 0 else x for x in i]
+            if _builtin_any(is_sym(x) for x in i):  # python list of (partly) symbolic integers, e.g. sampler indices
+                sym = True
+                out.append(Tensor(np.array(list(i), dtype=object), int64))
+            else:
+                out.append(np.array(i))
         elif is_sym(i):
             sym = True
             out.append(Tensor(i, int64))
